@@ -172,6 +172,7 @@ fn budget(prop: &str, tier: &str, seed: u64, scale: f64) -> Budget {
             random_runs = r(500_000, 300_000, 18_000_000, 18_000_000);
             sweeps.push(sweeps::c05_short_streams(!quick, !quick && checked));
             sweeps.push(sweeps::c05_base256_lengths(seed, if quick { 600 } else { 1600 }));
+            sweeps.push(sweeps::c05_eci_charset_bytes());
             if checked {
                 sweeps.push(sweeps::c05_string_path_streams());
             }
